@@ -13,16 +13,16 @@ LEVEL_TEXT = (
     "with the model outcome for outcome, including which parameters were set, from args or from env."
 )
 LEVEL_NOTE = (
-    "Integers: the decimal rendering (C16_int_decimal) and the 0x + 16 big-endian two's-complement bytes rendering "
+    "UTxO references: hex(txid)#decimal(index) is read back as exactly that reference for every txid and every index below 2^32 (C16_utxo_ref_roundtrip). Integers: the decimal rendering (C16_int_decimal) and the 0x + 16 big-endian two's-complement bytes rendering "
     "(C16_int_hex16) of every integer of the 128-bit range are read back exactly (theorems; that Rust's to_string / "
     "to_be_bytes produce these renderings is exercised on boundary values); base64 and bech32 decoding are parameters of the model (the crates are trusted, their "
     "results are fed to the judge from the observation); apply_args on the decoded template is C06's model."
 )
 PROP = "C16"
-TARGETS = ["Tx3Proofs.C16", "Tx3Proofs.C16Int"]
+TARGETS = ["Tx3Proofs.C16", "Tx3Proofs.C16Int", "Tx3Proofs.C16Ref"]
 THEOREMS = ["Tx3.Json.C16_hex_roundtrip", "Tx3.Json.C16_hexToBytes_plain", "Tx3.Json.C16_hexToBytes_prefixed",
             "Tx3.Json.C16_bool", "Tx3.Json.C16_fromJson_total", "Tx3.Json.C16_request_args",
-            "Tx3.Json.parseNatChars_natDigits", "Tx3.Json.C16_int_decimal", "Tx3.Json.ofBE16_toBE16", "Tx3.Json.C16_int_hex16"]
+            "Tx3.Json.parseNatChars_natDigits", "Tx3.Json.C16_int_decimal", "Tx3.Json.ofBE16_toBE16", "Tx3.Json.C16_int_hex16", "Tx3.Json.C16_utxo_ref_roundtrip"]
 RULE = (
     "cases = (a) every admissible encoding of a drawn value per type: integers (boundary i128 / u64 / i64 values) as "
     "JSON number, decimal string, 0x-hex of 16 bytes; booleans as literal, 0/1, strings; byte strings as hex, 0x-hex, "
